@@ -152,7 +152,8 @@ def gen_params(name, r, meta, light=True):
     return p
   if name == "LFDA":
     p["n_components"] = _ncomp(r, d)
-    p["k"] = r.choice([None, None] + list(range(1, max(2, d))))
+    # k >= n_features is legal (documented warning, clipped to d - 1)
+    p["k"] = r.choice([None, None] + list(range(1, max(2, d))) + [d, d + 2])
     p["embedding_type"] = r.choice(["weighted", "orthonormalized", "plain"])
     return p
   if name == "LMNN":
